@@ -98,7 +98,8 @@ func (c *CrossOriginResourceSharing) doPreflightRequest(req *Request, resp *Resp
 		}
 		return
 	}
-	acrhs := req.Request.Header.Get(HEADER_AccessControlRequestHeaders)
+	// a list header may arrive as several header lines: together they are one list
+	acrhs := strings.Join(req.Request.Header[HEADER_AccessControlRequestHeaders], ",")
 	if len(acrhs) > 0 {
 		for _, each := range strings.Split(acrhs, ",") {
 			if !c.isValidAccessControlRequestHeader(strings.Trim(each, " ")) {
